@@ -365,7 +365,7 @@ def datetime_getattr(E, obj, name, node):
 def super_lookup(E, sup, name, node):
     I = _I()
     recv = sup.recv
-    cands = receiver_classes(E, recv)
+    cands = receiver_classes(E, recv, name)
     found = set()
     res = None
     for K in cands:
@@ -391,13 +391,13 @@ def super_lookup(E, sup, name, node):
     raise I.Unsupported('super().%s -> %r' % (name, attr))
 
 
-def receiver_classes(E, recv):
+def receiver_classes(E, recv, name='__init__'):
     I = _I()
     if isinstance(recv, I.C):
         return [type(recv.v)]
     if isinstance(recv, I.T):
         t = recv.t
-        cands, sym = class_candidates(E, Val.oid(t))
+        cands, sym = class_candidates_for(E, z3.simplify(Val.oid(t)), name)
         if sym:
             hook = getattr(E, 'symbolic_class_bases', None)
             if hook:
@@ -557,12 +557,10 @@ def type_of(E, obj):
              (V.is_VStr, str), (V.is_VBytes, bytes), (V.is_VList, list), (V.is_VTuple, tuple),
              (V.is_VDict, dict), (V.is_VSet, set), (V.is_VDatetime, datetime.datetime), (V.is_VClass, type)]
     isobj = z3.simplify(V.is_VObj(t))
-    if z3.is_true(isobj):
-        oid = V.oid(t)
-        cands, sym = class_candidates(E, oid)
-        if not sym and len(cands) == 1:
-            return I.C(cands[0])
-        return I.T(V.VClass(E.classes.cls_of(oid)))
+    if z3.is_true(isobj) or E.must(isobj):
+        oid = z3.simplify(V.oid(t))
+        c = z3.simplify(E.classes.cls_of(oid))
+        return I.T(V.VClass(c))
     res = V.VClass(z3.If(isobj, E.classes.cls_of(V.oid(t)), z3.IntVal(0)))
     for rec, k in reversed(table):
         res = z3.If(rec(t), V.VClass(z3.IntVal(E.classes.cid(k))), res)
@@ -582,7 +580,7 @@ def class_getattr(E, obj, name, node):
         if k in E.classes.by_id:
             return getattr_(E, I.C(E.classes.by_id[k]), name, node)
     if name in ('__name__', '__module__', '__qualname__'):
-        f = z3.Function('Class' + name, z3.IntSort(), z3.StringSort())
+        f = z3.Function('Class' + name, z3.IntSort(), vals.STR)
         return I.T(Val.VStr(f(Val.cid(t))))
     hook = getattr(E, 'symbolic_class_getattr', None)
     if hook is None:
@@ -598,8 +596,8 @@ def setattr_(E, obj, name, v, node=None):
             return
         t = obj.t
         E.fail_if(z3.Not(Val.is_VObj(t)), AttributeError, 'setattr on non-object')
-        oid = Val.oid(t)
-        cands, sym = class_candidates(E, oid)
+        oid = z3.simplify(Val.oid(t))
+        cands, sym = class_candidates_for(E, oid, name)
         for K in cands:
             st = static_lookup(K, name)
             if st is not _MISSING and type(st).__name__ != 'member_descriptor':
@@ -718,10 +716,11 @@ def getitem(E, obj, idx, node=None):
     it = E.lift(idx)
     E.fail_if(z3.Not(vals.is_integral(it)), TypeError, 'index kind')
     i = vals.int_of(it)
-    n = z3.Length(V.s(t))
+    n = E.strlen(V.s(t))
     E.fail_if(z3.Or(i >= n, i < -n), IndexError, 'index range')
     j = z3.If(i < 0, i + n, i)
-    return I.T(V.VStr(z3.SubString(V.s(t), j, 1)))
+    f = z3.Function('StrCharAt', vals.STR, z3.IntSort(), vals.STR)
+    return I.T(V.VStr(f(V.s(t), j)))
 
 
 def setitem(E, obj, idx, v, node=None):
@@ -760,7 +759,7 @@ def getslice(E, obj, lo, hi, st, node=None):
         V = Val
         if z3.is_true(z3.simplify(V.is_VStr(t))):
             s = V.s(t)
-            n = z3.Length(s)
+            n = E.strlen(s)
             def norm(x, dflt):
                 if x is None:
                     return dflt
@@ -768,7 +767,8 @@ def getslice(E, obj, lo, hi, st, node=None):
                 i = z3.If(i < 0, z3.If(i + n < 0, 0, i + n), z3.If(i > n, n, i))
                 return i
             a, b = norm(lo, z3.IntVal(0)), norm(hi, n)
-            return I.T(V.VStr(z3.SubString(s, a, z3.If(b > a, b - a, 0))))
+            f = z3.Function('StrSlice', vals.STR, z3.IntSort(), z3.IntSort(), vals.STR)
+            return I.T(V.VStr(f(s, a, b)))
     raise I.Unsupported('slice of %r' % (obj,))
 
 
@@ -812,7 +812,8 @@ def contains_symbolic(E, cont, item, node):
         i = z3.Int('mem_i')
         return E.path.quant(z3.Exists([i], z3.And(i >= 0, i < ln, z3.Select(arr, i) == it)))
     E.fail_if(z3.Not(V.is_VStr(it)), TypeError, 'in <str> requires str')
-    return z3.Contains(V.s(t), V.s(it))
+    f = z3.Function('StrContains', vals.STR, vals.STR, z3.BoolSort())
+    return f(V.s(t), V.s(it))
 
 
 # ----------------------------------------------------------------------------
@@ -900,7 +901,7 @@ def percent_format(E, fmt, rhs, node):
         if len(specs) == 0 and len(args) == 1 and isinstance(args[0], (I.SDict,)):
             pass
         elif len(specs) == 0 and len(args) == 1 and isinstance(args[0], I.T) and \
-                E.path.check(z3.Not(z3.Or(V.is_VDict(args[0].t)))) == z3.unsat:
+                E.must(V.is_VDict(args[0].t)):
             pass
         else:
             E.raise_(TypeError, 'format arity')
@@ -973,17 +974,17 @@ def opaque_string(E, tag, terms):
     if pieces is not None and terms and len(pieces) == len(terms) + 1 and \
             (E.merge or all(E.must(Val.is_VStr(t)) for t in terms)):
         name = 'Tmpl_' + _h(repr(pieces))
-        f = z3.Function(name, *([z3.StringSort()] * len(terms) + [z3.StringSort()]))
+        f = z3.Function(name, *([vals.STR] * len(terms) + [vals.STR]))
         r = f(*[Val.s(t) for t in terms])
         if len(terms) == 1:
-            inv = z3.Function(name + '_inv', z3.StringSort(), z3.StringSort())
+            inv = z3.Function(name + '_inv', vals.STR, vals.STR)
             E.axiom(inv(r) == Val.s(terms[0]))
             E.path.ghost.setdefault('templates', {})[name] = pieces
         return I.T(Val.VStr(r))
     if not terms:
         return I.C(tag.split(':', 1)[1]) if tag.startswith('pfmt:') and '%' not in tag else \
-            I.T(Val.VStr(z3.Function('Str_' + _h(tag), z3.StringSort())()))
-    f = z3.Function('Str_' + _h(tag), *([vals.VS] * len(terms) + [z3.StringSort()]))
+            I.T(Val.VStr(z3.Const('Str_' + _h(tag), vals.STR)))
+    f = z3.Function('Str_' + _h(tag), *([vals.VS] * len(terms) + [vals.STR]))
     return I.T(Val.VStr(f(*terms)))
 
 
@@ -1069,12 +1070,10 @@ def str_concat(E, a, b):
     """String concatenation: the string theory when the engine runs in
     ``string_theory`` mode, otherwise an uninterpreted (deterministic) function
     -- enough wherever only equality of built strings matters."""
-    if getattr(E, 'string_theory', False):
-        return z3.Concat(a, b)
     a, b = z3.simplify(a), z3.simplify(b)
-    if z3.is_string_value(a) and z3.is_string_value(b):
-        return z3.StringVal(a.as_string() + b.as_string())
-    f = z3.Function('StrCat', z3.StringSort(), z3.StringSort(), z3.StringSort())
+    if vals.is_strlit(a) and vals.is_strlit(b):
+        return vals.strlit(vals.strlit_text(a) + vals.strlit_text(b))
+    f = z3.Function('StrCat', vals.STR, vals.STR, vals.STR)
     return f(a, b)
 
 
@@ -1262,8 +1261,8 @@ def install(E):
             if E.merge:
                 raise I.Unsupported('float() of a value of undetermined kind in a specification')
             if E.path.branch(isstr, 'float(str)'):
-                f = z3.Function('StrToFloatOk', z3.StringSort(), z3.BoolSort())
-                g = z3.Function('StrToFloat', z3.StringSort(), vals.FP)
+                f = z3.Function('StrToFloatOk', vals.STR, z3.BoolSort())
+                g = z3.Function('StrToFloat', vals.STR, vals.FP)
                 E.fail_if(z3.Not(f(V.s(t))), ValueError, 'could not convert string to float')
                 return I.T(V.VFloat(g(V.s(t))))
         isf = V.is_VFloat(t)
@@ -1305,10 +1304,10 @@ def install(E):
         if isinstance(x, I.T):
             t = x.t
             E.assumptions.add('str()/repr() of closed-world values does not raise')
-            f = z3.Function('PyStr', vals.VS, z3.StringSort())
+            f = z3.Function('PyStr', vals.VS, vals.STR)
             return I.T(Val.VStr(z3.If(Val.is_VStr(t), Val.s(t), f(t))))
         E.assumptions.add('str()/repr() of closed-world values does not raise')
-        return I.T(Val.VStr(E.path.fresh('str', z3.StringSort())))
+        return I.T(Val.VStr(E.path.fresh('str', vals.STR)))
     M[str] = m_str
 
     def m_repr(E, args, kw):
@@ -1317,9 +1316,9 @@ def install(E):
             return I.C(repr(x.v))
         E.assumptions.add('str()/repr() of closed-world values does not raise')
         if isinstance(x, I.T):
-            f = z3.Function('PyRepr', vals.VS, z3.StringSort())
+            f = z3.Function('PyRepr', vals.VS, vals.STR)
             return I.T(Val.VStr(f(x.t)))
-        return I.T(Val.VStr(E.path.fresh('repr', z3.StringSort())))
+        return I.T(Val.VStr(E.path.fresh('repr', vals.STR)))
     M[repr] = m_repr
 
     def m_isnan(E, args, kw):
@@ -1359,9 +1358,9 @@ def install(E):
             raise I.Unsupported('re.compile with flags')
         a = E.lift(args[0])
         E.fail_if(z3.Not(Val.is_VStr(a)), TypeError, 'first argument must be string or compiled pattern')
-        okf = z3.Function('ReValid', z3.StringSort(), z3.BoolSort())
+        okf = z3.Function('ReValid', vals.STR, z3.BoolSort())
         E.fail_if(z3.Not(okf(Val.s(a))), _re.error, 'invalid pattern')
-        f = z3.Function('ReCompile', z3.StringSort(), z3.IntSort())
+        f = z3.Function('ReCompile', vals.STR, z3.IntSort())
         return I.T(Val.VOther(f(Val.s(a))))
     M[_re.compile] = m_re_compile
 
@@ -1542,7 +1541,7 @@ def call_method(E, recv, name, args, kwargs):
                     return I.C('')
                 out = V.s(ts[0])
                 for x in ts[1:]:
-                    out = z3.Concat(out, z3.StringVal(recv.v), V.s(x))
+                    out = str_concat(E, str_concat(E, out, vals.strlit(recv.v)), V.s(x))
                 return I.T(V.VStr(out))
         recv = I.T(E.lift(recv))
     if isinstance(recv, I.SList):
@@ -1597,18 +1596,21 @@ def call_method(E, recv, name, args, kwargs):
     if name in ('startswith', 'endswith'):
         a = E.lift(args[0])
         E.fail_if(z3.Not(z3.Or(V.is_VStr(a), V.is_VTuple(a))), TypeError, name + ' arg')
-        if name == 'startswith':
-            return E.bool_sv(z3.PrefixOf(V.s(a), V.s(t)))
-        return E.bool_sv(z3.SuffixOf(V.s(a), V.s(t)))
+        pa, pt = z3.simplify(V.s(a)), z3.simplify(V.s(t))
+        if vals.is_strlit(pa) and vals.is_strlit(pt):
+            ta, tt = vals.strlit_text(pa), vals.strlit_text(pt)
+            return I.C(tt.startswith(ta) if name == 'startswith' else tt.endswith(ta))
+        f = z3.Function('StartsWith' if name == 'startswith' else 'EndsWith', vals.STR, vals.STR, z3.BoolSort())
+        return E.bool_sv(f(pt, pa))
     if name == 'encode':
         # str.encode('utf-8'): may raise UnicodeEncodeError (a ValueError) for lone surrogates
-        f = z3.Function('Utf8', z3.StringSort(), z3.StringSort())
-        ok = z3.Function('Utf8Ok', z3.StringSort(), z3.BoolSort())
+        f = z3.Function('Utf8', vals.STR, vals.STR)
+        ok = z3.Function('Utf8Ok', vals.STR, z3.BoolSort())
         E.fail_if(z3.Not(ok(V.s(t))), UnicodeEncodeError, 'surrogates')
         return I.T(V.VBytes(f(V.s(t))))
     if name == 'decode':
-        f = z3.Function('BytesDecode', z3.StringSort(), z3.StringSort())
-        ok = z3.Function('BytesDecodeOk', z3.StringSort(), z3.BoolSort())
+        f = z3.Function('BytesDecode', vals.STR, vals.STR)
+        ok = z3.Function('BytesDecodeOk', vals.STR, z3.BoolSort())
         E.fail_if(z3.Not(ok(V.bs(t))), UnicodeDecodeError, 'decode')
         return I.T(V.VStr(f(V.bs(t))))
     if name == 'format':
@@ -1618,7 +1620,7 @@ def call_method(E, recv, name, args, kwargs):
         f = z3.Function('tz_utcoffset', vals.VS, vals.VS, vals.VS)
         return I.T(f(t, E.lift(args[0])))
     if name == 'strftime':
-        f = z3.Function('Strftime', z3.IntSort(), z3.StringSort(), z3.StringSort())
+        f = z3.Function('Strftime', z3.IntSort(), vals.STR, vals.STR)
         a = E.lift(args[0])
         E.fail_if(z3.Not(V.is_VStr(a)), TypeError, 'strftime format')
         return I.T(V.VStr(f(V.dtid(t), V.s(a))))
